@@ -86,6 +86,9 @@ def _find_subgraph_bounded_by_values(
                     if input not in visited_values and input is not None:
                         value_stack.append(input)
                 for attr in node.attributes.values():
+                    if attr.is_ref():
+                        # A reference attribute has no value: there is no subgraph to follow
+                        continue
                     if attr.type == ir.AttributeType.GRAPH:
                         values = _collect_all_external_values(parent_graph, attr.as_graph())
                         for val in values:
